@@ -8,7 +8,7 @@
    prefix table and the station keys are universally quantified; the orders Go leaves open (map iteration
    over transports, prefix rows, registrations) are part of every ERead event and universally quantified
    with it. *)
-From CJ Require Import Common.Base C02.Model C02.Spec C02.Proofs C02.ModelConn C02.ProofsConn.
+From CJ Require Import Common.Base C02.Model C02.Spec C02.Proofs C02.ModelConn C02.ProofsConn C02.Run C02.RunConn C02.ProofsReplay.
 
 (* the handler never changes what the transports look up; every step sees the registry produced by exactly
    the registry operations that precede it *)
@@ -101,3 +101,30 @@ Theorem C02_conn_nothing_tracked_at_arrival_never_matched :
     forall t r c b, cstate_of reveal mark hs table keys ph (pre ++ EAccept :: post) <> CMatched t r c b.
 Proof. exact conn_untracked_at_accept. Qed.
 Print Assumptions C02_conn_nothing_tracked_at_arrival_never_matched.
+
+(* ---- the checker of the correspondence run (RunConn.v) is sound for the step function: a recorded connection that it
+        accepts (no RBad state) is, event by event, a run of `cstep` for SOME choice of the iteration orders; registry and
+        connection state agree (abs: the checker's state is the model's, with a matched registration shown by name) *)
+Theorem C02_conn_replay_is_model_run :
+  forall reveal mark hs table keys ph xs,
+    (forall w, snd (xrun reveal mark hs table keys ph xs) <> RBad w) ->
+    exists evs, Forall2 shape xs evs /\
+                fst (crun reveal mark hs table keys ph evs) = fst (xrun reveal mark hs table keys ph xs) /\
+                abs (snd (crun reveal mark hs table keys ph evs)) = snd (xrun reveal mark hs table keys ph xs).
+Proof. exact replay_sound. Qed.
+Print Assumptions C02_conn_replay_is_model_run.
+
+(* hence: an accepted record that ends in a tunnel to object n stands for a model run matched to a registration named n
+   by one definite Read, and that registration is registered (stored under that phantom and identifier, validated,
+   unexpired) in the history up to that Read *)
+Theorem C02_conn_accepted_record_tunnel_is_registered_at_match_step :
+  forall reveal mark hs table keys ph xs n,
+    snd (xrun reveal mark hs table keys ph xs) = RMatched n ->
+    exists evs t r c b pre chunk ch post buf poss id,
+      Forall2 shape xs evs /\ r_name r = n /\
+      cstate_of reveal mark hs table keys ph evs = CMatched t r c b /\
+      evs = pre ++ ERead chunk ch :: post /\
+      cstate_of reveal mark hs table keys ph pre = CReading buf poss /\ b = buf ++ chunk /\
+      carried reveal mark hs table keys t b c r id /\ registered (reg_ops pre) ph id r.
+Proof. exact accepted_record_matched. Qed.
+Print Assumptions C02_conn_accepted_record_tunnel_is_registered_at_match_step.
